@@ -59,6 +59,32 @@ HARNESSES = {
     "c18_bits": {"src": [H + "c18_bits.c", R + "umem_alloc.c", R + "ubuf_block_mem.c", R + "ubuf_mem_common.c"]},
 }
 
+# ---- free-running ThreadSanitizer pass (DESIGN.md 2.8): real pthreads, no scheduler; validates the scheduling-point
+# assumption of vsched (an atomic turned into a plain access has no point to preempt at). Bodies: the repository's own
+# threaded tests (real upump_ev loops, upipe_pthread_transfer, the three worker flavours) and harness/free_conc.c.
+TSANLIB = CORE + [M + "upipe_queue_sink.c", M + "upipe_queue_source.c", M + "upipe_queue.c", M + "upipe_transfer.c", M + "upipe_worker.c",
+                  M + "upipe_null.c", M + "upipe_idem.c", "@REPO@/lib/upump-ev/upump_ev.c",
+                  "@REPO@/lib/upipe-pthread/umutex_pthread.c", "@REPO@/lib/upipe-pthread/upipe_pthread_transfer.c",
+                  "@REPO@/lib/upipe-pthread/uprobe_pthread_assert.c", "@REPO@/lib/upipe-pthread/uprobe_pthread_upump_mgr.c"]
+FREE_TESTS = ["upipe_transfer_test", "upipe_worker_linear_test", "upipe_worker_sink_test", "upipe_worker_source_test", "upipe_worker_test",
+              "uprobe_pthread_upump_mgr_test", "udeal_test", "ulifo_uqueue_test"]
+for _t in FREE_TESTS:
+    HARNESSES["free_" + _t] = {"src": ["@REPO@/tests/" + _t + ".c"] + TSANLIB, "san": "tsan", "libs": ["-lev"], "free": True,
+                               "objgroup": "tsanlib", "cflags": ["-w"]}
+HARNESSES["free_conc"] = {"src": [H + "free_conc.c", R + "umem_alloc.c", R + "umem_pool.c", R + "udict_inline.c", R + "uref_std.c",
+                                  R + "ubuf_block_mem.c", R + "ubuf_mem_common.c"], "san": "tsan", "free": True, "objgroup": "tsanlib"}
+
+def _free_jobs(tests, conc):
+    """jobs of the free-running pass: each is run FREE_REPS times by the driver"""
+    jobs = [("free_" + t, []) for t in tests]
+    for a in conc:
+        jobs.append(("free_conc", a))
+    return jobs
+
+FREE_NOTE = (" A free-running ThreadSanitizer pass (real threads, no scheduler; not exhaustive, not the deciding step) runs the repository's own "
+             "threaded tests and harness/free_conc.c to validate that no thread-shared access escapes the hooked points; by-design plain accesses "
+             "inside uring.h and libev's lazy descriptor removal are suppressed (engine/tsan.supp).")
+
 DEFAULT_ASSUME = [
     "harness compiled with clang -O1 + AddressSanitizer from /repo's working tree; library asserts enabled",
     "128-bit hash of the canonical state used for deduplication (collision probability negligible)",
@@ -137,8 +163,9 @@ CHECKS["C07"] = {
     "engine": "vsched", "design_ref": "DESIGN.md section 3 C07",
     "technique": "stateless preemption-bounded exploration of all interleavings of real threads on the real ufifo/ulifo/upool (hooked atomics and plain ring accesses), brute-force linearizability check per execution",
     "level_text": "All small client programs (2-3 threads, <=2-3 ops each, capacities 1-3, every prefill) are run under a controlled scheduler that enumerates every interleaving with at most k preemptions at the granularity of each atomic op and each plain ring-element access; every execution's call/return history is checked against the sequential FIFO/LIFO specification by brute force (pool: exclusive holding + conservation). Bounded, not a proof.",
-    "level_note": "Sequentially consistent interleavings only (x86-TSO argument in DESIGN 6). Outside: more than 3 threads, more than 3 ops per thread, tag wrap-around (needs 256 reuses).",
-    "jobs": {"quick": _c07_jobs("quick"), "thorough": _c07_jobs("thorough")},
+    "level_note": "Sequentially consistent interleavings only (x86-TSO argument in DESIGN 6). Outside: more than 3 threads, more than 3 ops per thread, tag wrap-around (needs 256 reuses)." + FREE_NOTE,
+    "jobs": {"quick": _c07_jobs("quick") + _free_jobs(["ulifo_uqueue_test"], [["--mode", "ring", "--threads", 3, "--iters", 3000], ["--mode", "ring", "--threads", 4, "--iters", 2000]]),
+             "thorough": _c07_jobs("thorough") + _free_jobs(["ulifo_uqueue_test"], [["--mode", "ring", "--threads", 3, "--iters", 30000], ["--mode", "ring", "--threads", 4, "--iters", 20000]])},
     "rule": "one 'state' = one scheduling point visited, one execution = one complete schedule of a client program; "
             "non-trivial = executions in which two operations of different threads overlapped in real time",
     "bounds": {"quick": "2 threads x <=2 ops, preemption bound 3; 3 threads x <=2 ops, bound 2; capacities 1-2 (pool 0-2), all prefills",
@@ -161,8 +188,9 @@ CHECKS["C09"] = {
     "engine": "vsched", "design_ref": "DESIGN.md section 3 C09",
     "technique": "stateless preemption-bounded exploration of all interleavings of use/release (urefcount) and dup/free (real ubuf_block_mem over a counting allocator) by 2-3 threads",
     "level_text": "Every interleaving with at most k preemptions (at every atomic operation, and every ring access for the pooled variant) of all balanced use/release programs of 2-3 threads, and of dup/free programs on a real shared block buffer with pool depth 0 and 1; oracle: harness-side outstanding-reference and destructor counters, counting allocator (area freed exactly once, never while a handle is live), manager refcounts back to 1, ASan. Bounded, not a proof.",
-    "level_note": "Sequentially consistent interleavings; programs up to 5 ops per thread; 3 threads at most.",
-    "jobs": {"quick": _c09_jobs("quick"), "thorough": _c09_jobs("thorough")},
+    "level_note": "Sequentially consistent interleavings; programs up to 5 ops per thread; 3 threads at most." + FREE_NOTE,
+    "jobs": {"quick": _c09_jobs("quick") + _free_jobs([], [["--mode", "ref", "--threads", 3, "--iters", 3000], ["--mode", "ubuf", "--threads", 3, "--iters", 2000, "--pool", 0], ["--mode", "ubuf", "--threads", 3, "--iters", 2000, "--pool", 2]]),
+             "thorough": _c09_jobs("thorough") + _free_jobs([], [["--mode", "ref", "--threads", 4, "--iters", 30000], ["--mode", "ubuf", "--threads", 4, "--iters", 20000, "--pool", 0], ["--mode", "ubuf", "--threads", 4, "--iters", 20000, "--pool", 2]])},
     "rule": "one execution = one complete schedule; every execution has >= 2 threads racing on the same counter, so all are counted non-trivial; states = scheduling points visited",
     "bounds": {"quick": "ref: 2 threads x <=5 ops bound 8, 3 threads x <=3 ops bound 4; ubuf: 2 threads x <=3 ops bound 4, 3 threads x 1 op bound 3; pool 0/1",
                "thorough": "ref: 2 threads bound 12, 3 threads x <=5 ops bound 5; ubuf: 2 threads bound 6, 3 threads x <=3 ops bound 3"},
@@ -198,8 +226,9 @@ CHECKS["C08"] = {
     "engine": "vsched", "design_ref": "DESIGN.md section 3 C08",
     "technique": "stateless preemption-bounded exploration of producers/consumers sleeping on simulated event descriptors (real uqueue.h/udeal.h), scheduler-level deadlock detection",
     "level_text": "All interleavings with at most k preemptions, at atomic-op and descriptor read/write granularity, of producers and consumers that sleep on the queue's event descriptors exactly like the in-tree users, and of 2-3 contenders on a dealer; 'every unfinished thread asleep on a non-readable descriptor' is detected by the scheduler and judged against harness-side occupancy/holder counters. Bounded, not a proof.",
-    "level_note": "Simulated eventfd (Linux non-semaphore semantics). Coarse tier treats FIFO push/pop as atomic (justified by C07). Configurations: lengths 1-2, <=2 producers, <=2 consumers.",
-    "jobs": {"quick": _c08_jobs("quick"), "thorough": _c08_jobs("thorough")},
+    "level_note": "Simulated eventfd (Linux non-semaphore semantics). Coarse tier treats FIFO push/pop as atomic (justified by C07). Configurations: lengths 1-2, <=2 producers, <=2 consumers." + FREE_NOTE,
+    "jobs": {"quick": _c08_jobs("quick") + _free_jobs(["udeal_test", "ulifo_uqueue_test"], [["--mode", "uqueue", "--threads", 4, "--iters", 3000], ["--mode", "udeal", "--threads", 3, "--iters", 3000]]),
+             "thorough": _c08_jobs("thorough") + _free_jobs(["udeal_test", "ulifo_uqueue_test"], [["--mode", "uqueue", "--threads", 4, "--iters", 30000], ["--mode", "udeal", "--threads", 4, "--iters", 30000]])},
     "rule": "one execution = one complete schedule; non-trivial = executions in which at least one push failed / pop starved / grab was refused (somebody went to sleep); states = scheduling points visited",
     "bounds": {"quick": "uqueue L=1: 1P+1C x2 elems fine k<=4, 2P+1C fine k<=3 / coarse k<=6, 1P+2C coarse k<=5, 2P+2C coarse k<=4; L=2: 2P+1C x2 coarse k<=4, 2P+2C coarse k<=3, 1P+1C x3 fine k<=3; both consumer styles; udeal 2 contenders x2 rounds k<=7, 3 contenders k<=4, 3x2 rounds k<=3",
                "thorough": "same configurations one or two preemptions deeper, plus L=3 and L=2 at fine granularity"},
@@ -540,8 +569,8 @@ CHECKS["C06"] = {
     "engine": "vsched", "design_ref": "DESIGN.md section 3 C06",
     "technique": "stateless preemption-bounded exploration of all interleavings of (L1) a producer thread owning the real queue sink and a consumer thread owning the real queue source, (L2) an application thread owning a real upipe_xfer pipe and the remote thread its manager is attached to, (L3) an application thread owning a real linear worker pipe (upipe_worker.c) built inside the script around a recording remote pipe and the remote thread, each thread with its own mock event loop over simulated descriptors; sequence/ordering, thread-confinement, deadlock and use-after-free (ASan) oracles per execution",
     "level_text": "Producer scripts over set_flow_def / input / flush / loop step / release on the real upipe_qsink, consumer loop on the real upipe_qsrc with a recording sink; queue lengths 1-3, with and without a producer event loop, with max_length 0/1. Every interleaving with at most k preemptions at each atomic operation and each descriptor read/write of the shared queue and refcounts, every dispatch order of ready pumps. Per execution: the consumer receives the flow definition before data and each buffer exactly once in order (nothing lost when the producer has a loop; after a definition change the new definition precedes the next buffer), source_end comes after the last buffer, no deadlock / livelock, every event of the queue sink is thrown in the producer thread and every event of the queue source and every entry into the consumer's sink happens in the consumer thread, nothing is used after free (ASan) and everything is released at the end. L2: application scripts over attach_upump_mgr / set_uri / set_output / loop step / release(xfer pipe) / release(xfer manager) on a real upipe_xfer pipe whose remote pipe is a harness pipe recording the thread of every entry and throwing an event (forwarded by the real uprobe_xfer) on every set_uri: the remote pipe sees exactly the scripted commands, once, in order, only from the remote thread, is released there; forwarded events are thrown by the xfer pipe in the application thread, at most once each; the xfer pipe and its manager die, nothing is used after free, no deadlock. L3: scripts over upipe_wlin_alloc / attach_upump_mgr / set_output / set_flow_def / input / loop step / release: buffers travel application -> in_qsink | in_qsrc -> remote pipe -> out_qsink | out_qsrc -> application sink and must arrive exactly once, in order, after the right definition, with nothing lost once both loops are idle; the remote pipe (and the transferred queue source) is only entered from the remote thread, the application's sink only from the application thread. Bounded, not a proof.",
-    "level_note": "Levels L1 (queue pair), L2 (transfer) and L3 (linear worker over a harness-attached xfer manager) of DESIGN section 3/C06. upipe_pthread_transfer (real thread creation), source/sink workers and freeze/thaw are not explored; ThreadSanitizer is not run under the scheduler (coroutines). Managers' internal atomics are not scheduling points (thread-safe services decided by C07/C09). Sequentially consistent interleavings.",
-    "jobs": {"quick": _c06_jobs("quick"), "thorough": _c06_jobs("thorough")},
+    "level_note": "Levels L1 (queue pair), L2 (transfer) and L3 (linear worker over a harness-attached xfer manager) of DESIGN section 3/C06. upipe_pthread_transfer (real thread creation), source/sink workers and freeze/thaw are not explored; ThreadSanitizer is not run under the scheduler (coroutines); instead the 'no unsynchronised access' clause is additionally checked by a free-running ThreadSanitizer pass over the repository's transfer / worker (linear, source, sink) / pthread-upump-manager tests, which use real threads, real upump_ev loops and upipe_pthread_transfer (suppressions: engine/tsan.supp). Managers' internal atomics are not scheduling points (thread-safe services decided by C07/C09). Sequentially consistent interleavings.",
+    "jobs": {"quick": _c06_jobs("quick") + _free_jobs(FREE_TESTS[:6], []), "thorough": _c06_jobs("thorough") + _free_jobs(FREE_TESTS[:6], [])},
     "rule": "one execution = one complete schedule; states = scheduling points visited; non-trivial = executions in which the consumer's loop ran while the producer was still in its script",
     "bounds": {"quick": "scripts fiir fiiir fiFir fiixir fillir x queue length 1-2, preemption bound 3; no-loop producer scripts bound 4; max_length 1; length 3 and fiFiir at bound 2; xfer scripts aurm aumr aulrm aoulrm amur at bound 3, auourm auulurm at bound 2 (command queue length 8); worker scripts waofiir waofiFir at bound 2, waofir wafoiir waoflilr at bound 1 (queue length 2)",
                "thorough": "bound 4 (5 for no-loop), plus fiir at bound 5 and fir at bound 6; xfer and worker scripts one preemption deeper"},
